@@ -158,6 +158,10 @@ func unionScenario(o unionOpts) *Scenario {
 		entGov("gov(ent:limit=10)", "S1", 1, 10, "gov", 1),
 		govOnce("gov(wrk:fees=5/1/1)", model.WrkParams, model.AnchorParams{FeeReg: 5, FeeRec: 1, FeePur: 1, Denom: mc.Nund, Default: 2, Max: 4}),
 		govOnce("gov(stream:fee=0.5)", model.StrParams, "0.500000000000000000"),
+		failing(entGov("gov(ent:signers=O;min=1)+failing-msg", "O", 1, 100, "gov", 1)),
+		Action{Name: "sim(whitelist(S1,+O);raise(P1,5))", Dt: ms, Sim: func(*model.State) []model.Tx {
+			return []model.Tx{{Msgs: []model.Msg{{Kind: model.EntWhitelist, From: "S1", To: "O", N: 1}}}, {Msgs: []model.Msg{{Kind: model.EntRaise, From: "P1", Den: mc.Nund, Amt: "5"}}}}
+		}},
 		Action{Name: "gov(raise(gov,17))", Gov: &GovSpec{Msg: &model.Msg{Kind: model.EntRaise, Den: mc.Nund, Amt: "17"}}, Count: "gov",
 			Enabled: func(m *model.State, aux map[string]int) bool { return aux["gov"] < 1 && len(m.Ent.Orders) < maxOrders }},
 	)
